@@ -94,7 +94,7 @@ where
 
 fn metadata_tags<'i, I, E>(input: &mut I) -> winnow::Result<syntax::Metadata<'i>, E>
 where
-    I: Stream<Slice = &'i str> + StreamIsPartial,
+    I: Stream<Slice = &'i str> + StreamIsPartial + winnow::stream::Compare<&'static str>,
     E: ParserError<I>,
     <I as Stream>::Token: AsChar + Clone,
 {
@@ -103,7 +103,8 @@ where
         delimited(
             one_of(':'),
             repeat(1.., terminated(tag_key.map(Cow::Borrowed), one_of(':'))),
-            space0,
+            // tag words take the whole line: `:a:b: and more text` is a plain comment.
+            (space0, peek(character::line_ending_or_eof)),
         )
         .map(syntax::Metadata::WordTags),
     )
